@@ -57,6 +57,7 @@ TEMPLATES = [
     ("table->rename-operand", "insert into {w} select x from src; alter table {r} rename to fin2", "rename"),
     ("derived-alias->qualifier", "insert into fin select {r}.x from (select x from src) {w}", "qualifier"),
     ("target->self-read", "insert into {w} select x from {r}", "selfloop"),
+    ("alias-with-column-list->qualifier", "insert into fin select {r}.x from src as {w} (x, y)", "qualifier"),
     # session knowledge is keyed by the table: two spellings are two tables iff their normalisations differ (provider in use)
     # a whole dotted path inside ONE pair of backticks names the same table as the path quoted part by part
     ("whole-path-in-backticks", "insert into `{wb}.Mid` select x from src; insert into fin select x from {r}.`Mid`", "mid-table"),
@@ -183,6 +184,13 @@ def model_checks(rep: Report):
             if o is not None:
                 c.parent = o
             cols.append(c)
+    # sub-selects: equal objects hash alike, whatever the layout of their text
+    subs = [SubQuery(t, t, a) for t in ("(select x from src)", "(select x\n from src)", "(select  x from src)", "(select y from src)") for a in ("a", None)]
+    for x, y in itertools.product(subs, repeat=2):
+        n += 1
+        if x == y and hash(x) != hash(y) or (len({x, y}) == 1) != (x == y):
+            rep.violation("model-equality-disagrees-with-hash-or-printed-name", {"class": "SubQuery", "a": x.query_raw, "b": y.query_raw, "aliases": [x.alias, y.alias]},
+                          {"equal": x == y, "hash_equal": hash(x) == hash(y), "set_size": len({x, y})})
     for x, y in itertools.product(cols, repeat=2):
         n += 1
         eq, heq, seq = x == y, hash(x) == hash(y), str(x) == str(y)
